@@ -713,8 +713,17 @@ func main() {
 	if tier == "thorough" {
 		hamDur = 1500 * time.Millisecond
 	}
-	for i, ops := range optSets {
-		hammer(ops, stages[(i+int(rnd.Intn(len(stages))))%len(stages)], rnd.Fork(), rs, hamDur)
+	if len(rs.violations) == 0 { // a hanging read has been reported already: no need to pay more timeouts
+		var hw sync.WaitGroup
+		for i, ops := range optSets {
+			hw.Add(1)
+			st, lr := stages[(i+int(rnd.Intn(len(stages))))%len(stages)], rnd.Fork()
+			go func() {
+				defer hw.Done()
+				hammer(ops, st, lr, rs, hamDur)
+			}()
+		}
+		hw.Wait()
 	}
 
 	sort.Slice(rs.violations, func(i, j int) bool {
